@@ -493,4 +493,6 @@ def run(chk):
 
     common.arg_agreement_rule(chk, P, "C03", [("emit", "src/frame.rs"), ("emit", "src/platform/thread_local_ctxt.rs"),
                                                ("emit_core", "src/ctxt.rs")], 3)
+    from . import witness
+    witness.witness_rule(chk, "C03", 6)
     return chk
